@@ -13,6 +13,7 @@ import (
 
 	"verifh/core"
 	"verifh/envfs"
+	"verifh/ref/rpar1"
 	"verifh/scen"
 )
 
@@ -30,8 +31,10 @@ import (
 //   Repair  succeeds iff lost <= capacity; on success every file is original,
 //           exactly the damaged files are listed; on failure no file is
 //           worse than before.
-// After a Repair the views are cleared (whether the object tracks its own
-// writes is not specified), so a reload is needed before the next judgement.
+// After a Repair the views are cleared, so a reload is needed before the next
+// judgement - except after a successful PAR1 Repair: that decoder records what
+// it wrote, and its counts / a further Repair are judged as they stand (the
+// PAR2 decoder keeps its pre-repair tables; that is left unspecified).
 // Other calls are executed - they shape the hidden state - but not judged.
 // Sequences are not merged by model state: hidden state is the point.
 
@@ -40,6 +43,7 @@ type decProtoCase struct {
 	Prefix []int  `json:"prefix,omitempty"`
 	Depth  int    `json:"depth,omitempty"`
 	Seq    []int  `json:"seq,omitempty"` // replay
+	Ref    bool   `json:"ref,omitempty"`  // PAR1: the set is written by the independent reference writer (comment in the index, an entry not saved in the parity set between the saved ones, a zero-length file) instead of by gopar's Create
 	Disk   bool   `json:"disk,omitempty"` // exported constructors on a real directory (else: the same objects on the owned in-memory filesystem)
 }
 
@@ -109,7 +113,7 @@ func decProtoOne(c *decProtoCase, seq []int, r *core.Rec, wrap func(*decProtoCas
 		for _, o := range seq {
 			ops = append(ops, dpNames[o])
 		}
-		r.ViolateWith("decoder-protocol:"+sig, fmt.Sprintf(f, a...)+"\nsequence: "+strings.Join(ops, ", "), wrap(&decProtoCase{Fmt: c.Fmt, Seq: append([]int{}, seq...), Disk: c.Disk}))
+		r.ViolateWith("decoder-protocol:"+sig, fmt.Sprintf(f, a...)+"\nsequence: "+strings.Join(ops, ", "), wrap(&decProtoCase{Fmt: c.Fmt, Seq: append([]int{}, seq...), Disk: c.Disk, Ref: c.Ref}))
 	}
 	var p2 *scen.P2Set
 	var p1 *scen.P1Set
@@ -124,8 +128,11 @@ func decProtoOne(c *decProtoCase, seq []int, r *core.Rec, wrap func(*decProtoCas
 			return
 		}
 		p2, paths, datas, vols, fs0, index = s, s.Paths, s.Data, s.RecFiles, s.FS0, s.Index
+	} else if c.Ref {
+		s := decProtoRefSet(r.Seed)
+		p1, paths, datas, vols, fs0, index = s, s.Paths, s.Data, s.VolPaths, s.FS0, s.Index
 	} else {
-		s, err := scen.GetP1(scen.P1Config{Sizes: []int{7, 4}, Volumes: 2}, r.Seed)
+		s, err := scen.GetP1(scen.P1Config{Sizes: []int{7, 0}, Volumes: 2}, r.Seed)
 		if err != nil {
 			viol("setup-failed", "%v", err)
 			return
@@ -308,6 +315,12 @@ func decProtoOne(c *decProtoCase, seq []int, r *core.Rec, wrap func(*decProtoCas
 			}
 			judged := fresh
 			fileView, parityView = "-", "-"
+			if judged && pi == nil && rerr == nil && d1 != nil {
+				// the PAR1 decoder records what it wrote (its file table is updated by Repair), so after a successful
+				// Repair its counts / a further Repair are judged without a reload. The PAR2 decoder keeps its
+				// pre-repair tables (a second Repair on the same object rewrites the files): unspecified, not judged.
+				fileView, parityView = view(paths), view(vols)
+			}
 			if pi != nil {
 				if judged {
 					viol("repair-panic:"+pi.Frame, "%s", pi.Value)
@@ -357,4 +370,33 @@ func decProtoOne(c *decProtoCase, seq []int, r *core.Rec, wrap func(*decProtoCas
 	r.AddStates(1)
 	r.Outcome(c.Fmt + key)
 	r.Nontrivial(c.Fmt + fmt.Sprint(seq))
+}
+
+var decProtoRefCache = map[int64]*scen.P1Set{}
+
+// decProtoRefSet is a PAR1 set written by the reference writer: a comment in the index volume, an entry that is not
+// saved in the parity set (its file is present) between the two saved ones, the second saved file zero-length.
+func decProtoRefSet(seed int64) *scen.P1Set {
+	if s, ok := decProtoRefCache[seed]; ok {
+		return s
+	}
+	a := scen.Content("uniq", seed, 0, 7, 4)
+	x := scen.Content("uniq", seed, 1, 3, 4)
+	b := []byte{}
+	es := []rpar1.Entry{rpar1.MakeEntry("a.bin", a, true), rpar1.MakeEntry("x.txt", x, false), rpar1.MakeEntry("b.bin", b, true)}
+	s := &scen.P1Set{Cfg: scen.P1Config{Sizes: []int{7, 0}, Volumes: 2}, Dir: "/d", Index: "/d/s.par",
+		Names: []string{"a.bin", "b.bin"}, Paths: []string{"/d/a.bin", "/d/b.bin"}, Data: [][]byte{a, b}}
+	fs := envfs.New()
+	fs.Put("/d/a.bin", a)
+	fs.Put("/d/x.txt", x)
+	fs.Put("/d/b.bin", b)
+	fs.Put(s.Index, rpar1.Write(0, es, []byte("a comment in the index volume")))
+	for v := 1; v <= 2; v++ {
+		p := scen.VolPath(s.Index, v)
+		fs.Put(p, rpar1.Write(uint64(v), es, rpar1.Parity([][]byte{a, b}, v)))
+		s.VolPaths = append(s.VolPaths, p)
+	}
+	s.FS0 = fs
+	decProtoRefCache[seed] = s
+	return s
 }
